@@ -79,8 +79,12 @@ class MarkCut:
 
     def enter(self, loc):
         self.entered += 1
+        # the two state variables of the loop, whatever they are called: the one that starts as the node's own path, the one that starts as None
+        names = getattr(self, "rebindable", ()) or ("parent_path", "parent_class")
+        self.v_path = rewrite.state_variable(loc, names, lambda v: v is self.path, "the path walked towards the root")
+        self.v_class = rewrite.state_variable(loc, names, lambda v: v is None, "the class found so far")
         if self.mode == "init":
-            raise PathStop([("C17-M/mark_node/while/invariant-holds-on-entry", self.inv(loc["parent_path"], loc["parent_class"]))])
+            raise PathStop([("C17-M/mark_node/while/invariant-holds-on-entry", self.inv(loc[self.v_path], loc[self.v_class]))])
         cx = ctx()
         pp = SymPath(name="parent_path")
         isnone = z3.Bool("parent_class_is_none")
@@ -91,12 +95,12 @@ class MarkCut:
         for q in (parent_term(self.path), P(pp), parent_term(pp)):
             cx.assume(eff_axiom(q, self.ok, self.ko, self.marker))
         self.pre_len = z3.Length(P(pp))
-        return {"parent_path": pp, "parent_class": pc}
+        return {self.v_path: pp, self.v_class: pc}
 
     def step(self, loc):
         if self.mode != "havoc":
             return
-        pp, pc = loc["parent_path"], loc["parent_class"]
+        pp, pc = loc[self.v_path], loc[self.v_class]
         raise PathStop([("C17-M/mark_node/while/invariant-preserved", self.inv(pp, pc)),
                         ("C17-M/mark_node/while/decreases", z3.And(z3.Length(P(pp)) < self.pre_len, z3.Length(P(pp)) >= 0))])
 
